@@ -90,14 +90,19 @@ def check(events, case):
     return msgs, common.digest(dgs), nt
 
 
+def _transition(h2, depth, case):
+    msgs, dg, nt = check(h2, case)
+    return msgs, dg, nt, (modsearch.impl_key(h2, case) if len(h2) < depth else None)
+
+
 def expand(history, maxnest, depth, case):
     out = []
     for ev in enabled(history, maxnest):
         h2 = history + [ev]
-        msgs, dg, nt = check(h2, case)
+        msgs, dg, nt, impl = _transition(h2, depth, case)
         key = None
         if len(h2) < depth:
-            key = (statespace.model_key(h2), occupancy(h2), modsearch.impl_key(h2, case))
+            key = (statespace.model_key(h2), occupancy(h2), impl)
         r = modsearch.result(ev, key, msgs, dg, nt)
         r["n"] = len(CONFIGS)
         out.append(r)
